@@ -1,5 +1,6 @@
 import Rare.Drv.Expr
 import Rare.Model.C19Float
+import Rare.Model.C19F64Math
 import Rare.Proofs.C19Lit
 /-!
 Driver ops of C19.
@@ -42,28 +43,34 @@ metamorphic "constants equal bound variables": `f2` is `f1` with numeric constan
 variables that `<keys>` binds to the same values; both are compiled and evaluated (here by the
 model, in the harness by the real code) and must agree bit for bit; answer `ok <bits>`.
 
-Plus the shared `expr` op (`{! …}` inside templates).
+Plus the shared `expr` op (`{! …}` inside templates), here with `{! …}` bound to the IEEE instance.
+
+Every value is computed with the software binary64 instance `IEEE.arithT` (`Model/C19F64.lean`, the
+instance of the `*_f64` theorems; `none` = went through a libm-backed function → `unmodelled inexact`).
+The native-`Float` instance of `Model/C19Float.lean` is evaluated next to it as a cross-check: when
+both give a definite answer and the answers differ the driver says `model-vs-native …` (a bug in one
+of the two models, shown even if Go happened to agree with the software model).
 -/
 namespace Rare.Drv.C19
 open Rare Rare.C19 Rare.Proto
 
 def hexDigitVal (c : Char) : Option Nat := Hex.val c
 
-def parseBits (s : String) : Option Float :=
+/-- 16 hex digits = a float64 bit pattern. -/
+def parsePat (s : String) : Option UInt64 :=
   if s.length ≠ 16 then none
-  else (s.toList.foldlM (fun (acc : Nat) c => (hexDigitVal c).map (acc * 16 + ·)) 0).map
-    (fun n => Float.ofBits (UInt64.ofNat n))
+  else (s.toList.foldlM (fun (acc : Nat) c => (hexDigitVal c).map (acc * 16 + ·)) 0).map UInt64.ofNat
 
-def parseMatches (s : String) : Option (List Float) :=
-  if s = "." then some [] else (s.splitOn ",").mapM parseBits
+def parseMatches (s : String) : Option (List UInt64) :=
+  if s = "." then some [] else (s.splitOn ",").mapM parsePat
 
-def parseKeys (s : String) : Option (List (Bytes × Float)) :=
+def parseKeys (s : String) : Option (List (Bytes × UInt64)) :=
   if s = "." then some [] else
   (s.splitOn ",").mapM fun kv =>
     match kv.splitOn "=" with
     | [k, v] => do
       let kb ← Hex.dec k
-      let f ← parseBits v
+      let f ← parsePat v
       pure (kb, f)
     | _ => none
 
@@ -83,28 +90,60 @@ def errStr : Err → String
   | .fuel => "fuel"
   | .unmodelled w => "unmodelled " ++ w
 
-def binding (ms : List Float) (ks : List (Bytes × Float)) : Binding F.FV :=
-  { getMatch := fun i => if i < 0 then some 0.0 else some (ms.getD i.toNat 0.0),
+/-- binding for the IEEE instance -/
+def binding (ms : List UInt64) (ks : List (Bytes × UInt64)) : Binding IEEE.TV :=
+  { getMatch := fun i => if i < 0 then some IEEE.zeroP else some (F64.ofBits (ms.getD i.toNat 0)),
     getKey := fun k => match ks.find? (·.1 == k) with
-      | some p => some p.2
+      | some p => some (F64.ofBits p.2)
+      | none => some IEEE.zeroP }
+
+/-- the same binding for the native cross-check instance -/
+def bindingN (ms : List UInt64) (ks : List (Bytes × UInt64)) : Binding F.FV :=
+  { getMatch := fun i => if i < 0 then some 0.0 else some (Float.ofBits (ms.getD i.toNat 0)),
+    getKey := fun k => match ks.find? (·.1 == k) with
+      | some p => some (Float.ofBits p.2)
       | none => some 0.0 }
 
 def tokKind : TokT → String
   | .lit => "L" | .group => "G" | .op => "O" | .mod => "M"
 
-def valAns (v : F.FV) : String :=
+def valAns (v : IEEE.TV) : String :=
   match v with
   | none => "unmodelled inexact"
   | some v => if v.isNaN then "ok nan" else "ok " ++ hex16 v.toBits
 
+def valAnsN (v : F.FV) : String :=
+  match v with
+  | none => "unmodelled inexact"
+  | some v => if v.isNaN then "ok nan" else "ok " ++ hex16 v.toBits
+
+/-- Cross-check: two definite answers must be the same answer. -/
+def xcheck (model native : String) : String :=
+  if model.startsWith "unmodelled" || native.startsWith "unmodelled" || model == native then model
+  else s!"model-vs-native model=[{model}] native=[{native}]"
+
+def mathAns (fb : Bytes) (m : List UInt64) (k : List (Bytes × UInt64)) : String :=
+  match compile IEEE.arithT fb with
+  | .error e => errStr e
+  | .ok (_, e) => valAns (e.eval IEEE.arithT (binding m k))
+
+def mathAnsN (fb : Bytes) (m : List UInt64) (k : List (Bytes × UInt64)) : String :=
+  match compile F.arith fb with
+  | .error e => errStr e
+  | .ok (_, e) => valAnsN (e.eval F.arith (bindingN m k))
+
 def gramAns (fb : Bytes) : String :=
-  let r := compile F.arith fb
+  let r := compile IEEE.arithT fb
   match r with
   | .error (.unmodelled w) => "unmodelled " ++ w
   | _ =>
-    let a := accepts tok (fun v => (classify F.arith v).isSome) (fun o => opKeys.contains o) fb
+    let a := accepts tok (fun v => (classify IEEE.arithT v).isSome) (fun o => opKeys.contains o) fb
     let ok := match r with | .ok _ => true | .error _ => false
     if a != ok then "grammar-model-disagree" else if a then "ok accept" else "ok reject"
+
+/-- The expression registry with `{! …}` bound to the IEEE instance (first entry wins). -/
+def registry : Rare.Expr.Registry :=
+  Rare.Expr.mkRegistry (("!", IEEE.kfMath) :: Rare.Expr.stdTable) Gen.stdFunctionNames
 
 def handle (args : List String) : String :=
   match args with
@@ -117,41 +156,35 @@ def handle (args : List String) : String :=
     | some b, some _, some d =>
       if d.isEmpty || !d.all (isBaseDigit b) then "ok not-a-literal"
       else if baseVal b d > 9223372036854775807 then "ok out-of-range"
-      else valAns (F.arith.ofInt (baseVal b d))
+      else xcheck (valAns (IEEE.arithT.ofInt (baseVal b d))) (valAnsN (F.arith.ofInt (baseVal b d)))
     | _, _, _ => "bad-args"
   | ["impl", f1, f2, ms, ks] =>
     match Hex.dec f1, Hex.dec f2, parseMatches ms, parseKeys ks with
     | some b1, some b2, some m, some k =>
-      match compile F.arith b1, compile F.arith b2 with
+      match compile IEEE.arithT b1, compile IEEE.arithT b2 with
       | .ok (t1, e1), .ok (t2, e2) =>
         if t1.explicit != t2 then "explicit-parse-differs"
         else
-          let v1 := e1.eval F.arith (binding m k)
-          let v2 := e2.eval F.arith (binding m k)
-          if valAns v1 != valAns v2 then "explicit-value-differs" else valAns v1
+          let v1 := e1.eval IEEE.arithT (binding m k)
+          let v2 := e2.eval IEEE.arithT (binding m k)
+          if valAns v1 != valAns v2 then "explicit-value-differs" else xcheck (valAns v1) (mathAnsN b1 m k)
       | .error e, _ => errStr e
       | _, .error e => errStr e
     | _, _, _, _ => "bad-args"
   | ["meta", f1, f2, ms, ks] =>
     match Hex.dec f1, Hex.dec f2, parseMatches ms, parseKeys ks with
     | some b1, some b2, some m, some k =>
-      match compile F.arith b1, compile F.arith b2 with
+      match compile IEEE.arithT b1, compile IEEE.arithT b2 with
       | .ok (_, e1), .ok (_, e2) =>
-        let v1 := e1.eval F.arith (binding m k)
-        let v2 := e2.eval F.arith (binding m k)
-        if valAns v1 != valAns v2 then "meta-value-differs" else valAns v1
+        let v1 := e1.eval IEEE.arithT (binding m k)
+        let v2 := e2.eval IEEE.arithT (binding m k)
+        if valAns v1 != valAns v2 then "meta-value-differs" else xcheck (valAns v1) (mathAnsN b1 m k)
       | .error e, _ => errStr e
       | _, .error e => errStr e
     | _, _, _, _ => "bad-args"
   | ["math", f, ms, ks] =>
     match Hex.dec f, parseMatches ms, parseKeys ks with
-    | some fb, some m, some k =>
-      match compile F.arith fb with
-      | .error e => errStr e
-      | .ok (_, e) =>
-        match e.eval F.arith (binding m k) with
-        | none => "unmodelled inexact"
-        | some v => if v.isNaN then "ok nan" else "ok " ++ hex16 v.toBits
+    | some fb, some m, some k => xcheck (mathAns fb m k) (mathAnsN fb m k)
     | _, _, _ => "bad-args"
   | ["ref", _, _, _] => "ok agree"
   | ["tok", f] =>
@@ -161,6 +194,16 @@ def handle (args : List String) : String :=
       | .ok toks => "ok " ++ ",".intercalate (toks.map fun t => tokKind t.t ++ ":" ++ Hex.enc t.val)
       | .error e => errStr e
     | none => "bad-args"
+  | ["expr", o, t, el, ks] =>
+    match Hex.dec t, decHexList el, decHexList ks with
+    | some tb, some elems, some keys =>
+      match Rare.Drv.Expr.decodeTemplate tb with
+      | some tc =>
+        let ctx := Rare.Drv.Expr.mkCtx elems keys
+        xcheck (Rare.Drv.Expr.evalWith registry (o == "1") tc ctx)
+          (Rare.Drv.Expr.evalWith Rare.Drv.Expr.registry (o == "1") tc ctx)
+      | none => "bad-args"
+    | _, _, _ => "bad-args"
   | _ =>
     match Rare.Drv.Expr.handle args with
     | some a => a
